@@ -287,7 +287,20 @@ func (c *c20Run) formulas(as atomSet) []*F {
 	if c.thorough {
 		fs = append(fs, depth3only(as.core10[:8])...)
 	}
-	return fs
+	return dedupe(fs)
+}
+
+// dedupe drops formulas enumerated by more than one generator (¬(a∨b) has depth 3).
+func dedupe(fs []*F) []*F {
+	seen := map[string]bool{}
+	out := fs[:0]
+	for _, f := range fs {
+		if k := f.Key(); !seen[k] {
+			seen[k] = true
+			out = append(out, f)
+		}
+	}
+	return out
 }
 
 func runC20() int {
